@@ -1101,6 +1101,13 @@ def g3e(cx):
     cx.need(n >= 60, f"only {n} index cases")
 
 
+def np_prod(xs):
+    out = 1
+    for x in xs:
+        out *= x
+    return out
+
+
 # ------------------------------------------------------------------------------------------ R13 shape refusal
 @rule("R13", ["C11", "C03"], "construction / whole-array update from an array-like value of another shape is refused before anything is allocated or written")
 def r13(cx):
@@ -1129,15 +1136,21 @@ def r13(cx):
                     bad = list(dims)
                     bad[k] = dims[k] + 1
                     variants.append((f"dynamic dimension {k} of another length (update only)", ("upd", bad)))
+            if nd == 2 and all(mask) and dims[0] != dims[1]:
+                # a value with the SAME number of items but the dimensions exchanged whose len() is the item count (as
+                # len() of an xobject array is): passes the length comparison of _update, only the shape check stops it
+                variants.append(("same item count, dimensions exchanged, len() = item count (update only)", ("upd-len", [dims[1], dims[0]])))
             for what, vshape in variants:
                 if vshape is None:
                     continue
+                lenmode = "first"
                 for op in ("construct", "update"):
                     if vshape == "2args" and (op == "update" or any(mask)):
                         continue
-                    if isinstance(vshape, tuple) and vshape[0] == "upd":
+                    if isinstance(vshape, tuple) and vshape[0] in ("upd", "upd-len"):
                         if op == "construct":
                             continue
+                        lenmode = "count" if vshape[0] == "upd-len" else "first"
                         vshape = vshape[1]
                     n += 1
                     label = f"array[shape={cshape}] {op} from " + (f"an array-like of shape {tuple(vshape)} ({what})" if vshape != "2args" else "two positional arguments")
@@ -1155,7 +1168,7 @@ def r13(cx):
                             h = I.call(cls, [good], {"_buffer": W.buffer})
                             n0 = len(I.effects)
                             val = lab.value("e", vshape, nplike=True)
-                            val.attrs["__len__"] = Builtin("len", lambda: vshape[0])
+                            val.attrs["__len__"] = Builtin("len", lambda: vshape[0] if lenmode == "first" else int(np_prod(vshape)))
                             I.call(I.getattr(h, "_update"), [val], {})
                             return n0
                         return 0
